@@ -55,6 +55,7 @@ type Exp struct {
 type svcDef struct {
 	cfg    *cfg.Service
 	marker string // OverrideService marker definition
+	scope  string // scope of the marker definition ("" = default)
 }
 
 type paramDef struct {
@@ -596,6 +597,9 @@ func (d *DI) effectiveScope(name string) string {
 		return "shared"
 	}
 	if def.marker != "" {
+		if def.scope != "" {
+			return def.scope
+		}
 		return d.defaultScope(name)
 	}
 	if def.cfg.IsTodo() {
@@ -682,6 +686,9 @@ func (d *DI) defaultScope(name string) string {
 	for n := range d.reach(name) {
 		def := d.svcs[n]
 		if def != nil && def.marker == "" && !def.cfg.IsTodo() && def.cfg.Scope != nil && *def.cfg.Scope == "contextual" {
+			return "contextual"
+		}
+		if def != nil && def.marker != "" && def.scope == "contextual" {
 			return "contextual"
 		}
 	}
@@ -989,11 +996,12 @@ func cloneMV(v MV) MV {
 
 // ProbeOp is the model-side view of a probe operation.
 type ProbeOp struct {
-	Op  string
-	ID  string
-	Ctx string
-	Val *cfg.Val // overrideParam
-	Str string   // overrideService marker
+	Op    string
+	ID    string
+	Ctx   string
+	Val   *cfg.Val // overrideParam
+	Str   string   // overrideService marker
+	Scope string   // overrideService: scope of the overriding definition ("" = default)
 }
 
 func (d *DI) bagFor(ctx string) map[string]MV {
@@ -1049,7 +1057,7 @@ func (d *DI) Exec(op ProbeOp) Exp {
 		if _, ok := d.svcs[op.ID]; !ok {
 			d.svcOrder = append(d.svcOrder, op.ID)
 		}
-		d.svcs[op.ID] = &svcDef{marker: op.Str}
+		d.svcs[op.ID] = &svcDef{marker: op.Str, scope: op.Scope}
 		delete(d.shared, op.ID)
 		return Exp{}
 	case "circular":
